@@ -340,6 +340,32 @@ func c14(c *Ctx) {
 			}
 		}
 	}
+	// (currentRevision, currentIdentifier) change together, in Reconcile only, after ok(Revision):
+	// the IfNotPresent shortcut trusts the pair.
+	{
+		rv := calls(rec, "("+xp+pkgManager+".Revisioner).Revision")
+		for _, f := range c.P.PkgFunctions(pkgManager) {
+			for _, x := range cfgx.Calls(f, func(ci ssa.CallInstruction) bool {
+				n := cfgx.CalleeName(ci)
+				return strings.HasSuffix(n, ".SetCurrentIdentifier") || strings.HasSuffix(n, ".SetCurrentRevision")
+			}) {
+				if f != rec {
+					c.R.Bad(site(x)+" who-may-set", c.pos(x.Pos()), "currentRevision/currentIdentifier are set outside Reconciler.Reconcile: the pair (identifier, revision) the IfNotPresent shortcut relies on can get out of step")
+					continue
+				}
+				if strings.HasSuffix(cfgx.CalleeName(x), ".SetCurrentIdentifier") && len(rv) == 1 {
+					c.requireCross(site(x)+" after-revision", x, okEdges(rv[0]), "ok(Revision)")
+					paired := false
+					for _, y := range cfgx.Calls(rec, func(ci ssa.CallInstruction) bool { return strings.HasSuffix(cfgx.CalleeName(ci), ".SetCurrentRevision") }) {
+						if y.Block() == x.Block() {
+							paired = true
+						}
+					}
+					c.R.Check(paired && hasSuffixCall(cfgx.CallArgs(x)[0], ".GetSource"), site(x)+" paired", c.pos(x.Pos()), "set together with SetCurrentRevision, to p.GetSource()", "the identifier is not set together with the revision name (or not to the package source)")
+				}
+			}
+		}
+	}
 	if rvf := c.method(pkgManager, "PackageRevisioner", "Revision"); rvf != nil {
 		n := 0
 		for _, b := range rvf.Blocks {
